@@ -1,4 +1,4 @@
-import OntVerif.Proofs.Block
+import OntVerif.Proofs.BlockRt
 /-!
 # C20 — Block encoding round-trips and binds the transaction list
 
@@ -183,6 +183,53 @@ theorem C20_dup_last_same_root (node : Bytes → Bytes → Bytes) (a b c : Bytes
     computeMerkleRoot node [a, b, c] = computeMerkleRoot node [a, b, c, c] := rfl
 
 
+/-! ### The converse direction: the encoding of a canonical block is accepted and decodes to that block -/
+
+/-- **Header round trip, converse**: a header whose unsigned fields have the wire widths (`WfHU`: uint32 version /
+timestamp / height, uint64 consensus data, 32-byte hashes, 20-byte next bookkeeper, payload shorter than 2^64), whose
+bookkeeper blobs are fixed points of key decode-then-encode (`K.canon k = some k`) and whose wire-level counts are the
+list lengths (`HeaderCanon`), is decoded from its own encoding — anywhere in any buffer, by both variants — to exactly
+itself, consuming exactly the encoding. -/
+theorem C20_roundtrip_header (V : Variant) (K : Keys) (h : Header) (hc : HeaderCanon K h)
+    (pre rest : Bytes) (hlen : (pre ++ serHeader h ++ rest).length < two64) :
+    parseHeader V K ⟨pre ++ serHeader h ++ rest, pre.length⟩
+      = .ok h ⟨pre ++ serHeader h ++ rest, pre.length + (serHeader h).length⟩ :=
+  fwd_parseHeader V K h hc (by simp only [List.length_append] at hlen; omega) _ _ hlen (by simp) (seg_of_append pre _ rest)
+
+/-- **Block round trip, converse**: a block with a canonical header, well-formed deploy/invoke transactions
+(`wfFields`, C19), fewer than 2^32 of them, pairwise different transaction hashes and the matching merkle root is
+decoded from `serBlock b` to exactly `b`. -/
+theorem C20_roundtrip (V : Variant) (K : Keys) (R : Rlp) (hs : Hashes) (b : Block)
+    (hh : HeaderCanon K b.header)
+    (htx : ∀ t ∈ b.txs, ∃ u sigs, wfFields u sigs = true ∧ t = mkTx u sigs)
+    (hn : b.txs.length < 256 ^ 4) (hnd : (b.txs.map hs.txHash).Nodup)
+    (hroot : b.header.u.txRoot = computeMerkleRoot hs.node (b.txs.map hs.txHash))
+    (pre rest : Bytes) (hlen : (pre ++ serBlock b ++ rest).length < two64) :
+    parseBlock V K R hs ⟨pre ++ serBlock b ++ rest, pre.length⟩
+      = .ok b ⟨pre ++ serBlock b ++ rest, pre.length + (serBlock b).length⟩ := by
+  have hc : BlockCanon K R hs b := by
+    refine ⟨hh, ?_, hn, hnd, hroot⟩
+    intro t ht
+    obtain ⟨u, sigs, hw, rfl⟩ := htx t ht
+    exact fwd_of_wfFields R u sigs hw
+  exact fwd_parseBlock V K R hs b hc (by simp only [List.length_append] at hlen; omega) _ _ hlen (by simp)
+    (seg_of_append pre _ rest)
+
+/-- the hypotheses of `C20_roundtrip` are exactly what the decoder establishes when every key blob is canonical:
+an accepted block (Ontology-shape transactions) with canonical blobs satisfies them, so decode ∘ encode ∘ decode = decode -/
+theorem C20_decoded_is_canon (V : Variant) (K : Keys) (R : Rlp) (hs : Hashes) (s : Src) (w : s.wf) (b : Block) (s' : Src)
+    (hp : parseBlock V K R hs s = .ok b s') (hcanon : b.header.bookkeepers = b.header.bkRaw) :
+    HeaderCanon K b.header ∧ b.txs.length < 256 ^ 4 ∧ (b.txs.map hs.txHash).Nodup ∧
+    b.header.u.txRoot = computeMerkleRoot hs.node (b.txs.map hs.txHash) := by
+  obtain ⟨_, s1, _, _, hpost, hlt, hnd, hroot, _⟩ := block_post_of_ok w hp
+  obtain ⟨_, hu, hbl, hsl, hlen, hcan, _⟩ := hpost
+  refine ⟨⟨hu, ?_, hcanon.symm, by rw [hcanon, hbl], hsl.symm⟩, hlt, hnd, hroot⟩
+  intro k hk
+  obtain ⟨i, hi, rfl⟩ := List.getElem_of_mem hk
+  have := hcan i (by rw [← hlen]; exact hi) hi
+  simp only [hcanon] at this ⊢
+  exact this
+
 /-! ### `RawHeader.Deserialization` -/
 
 theorem C20_rawheader_total (s : Src) (w : s.wf) : parseRawHeader s ≠ .panic := by
@@ -278,5 +325,24 @@ example : (match parseBlock .asShipped exKeys ⟨fun _ => .error .invalid⟩ exH
 injective `node` (concatenation of 1-byte hashes) where `C20_txroot_binds` yields its first disjunct -/
 example : computeMerkleRoot (fun a b => a ++ b) [[1], [2], [3]] ≠ computeMerkleRoot (fun a b => a ++ b) [[1], [3], [2]] := by
   decide
+
+/-- non-vacuity of `C20_roundtrip_header` / `C20_roundtrip`: a concrete canonical header and an empty block around it -/
+def exHeader : Header :=
+  ⟨⟨0, List.replicate 32 0, zeroHash, List.replicate 32 0, 0, 7, 0, [], List.replicate 20 0⟩,
+   [[2, 1]], [[0xaa, 0xbb]], 1, [[2, 1]], 1⟩
+
+example : HeaderCanon exKeys exHeader := by
+  refine ⟨⟨by decide, by decide, by decide, by decide, by decide, by decide, by decide, by decide, by decide⟩, ?_, rfl, rfl, rfl⟩
+  intro k hk
+  have : k = [2, 1] := by simpa [exHeader] using hk
+  subst this
+  decide
+
+example : serHeader exHeader = exHdrCanon := by decide +kernel
+
+example : (∀ t ∈ (⟨exHeader, []⟩ : Block).txs, ∃ u sigs, wfFields u sigs = true ∧ t = mkTx u sigs) ∧
+    ((⟨exHeader, []⟩ : Block).txs.map exHashes.txHash).Nodup ∧
+    exHeader.u.txRoot = computeMerkleRoot exHashes.node ((⟨exHeader, []⟩ : Block).txs.map exHashes.txHash) :=
+  ⟨fun t ht => absurd ht (by simp), List.nodup_nil, rfl⟩
 
 end OntVerif.Props.C20
